@@ -1,0 +1,72 @@
+//! Thin public wrappers around crate-private routines, for external verification harnesses.
+//! Only compiled with the `verif-hooks` feature; adds no behaviour.
+use crate::array::{ArrayKind, NaturalArray};
+use crate::finite_function::FiniteFunction;
+use crate::indexed_coproduct::IndexedCoproduct;
+use crate::strict::graph;
+use crate::strict::hypergraph::Hypergraph;
+
+pub fn converse<K: ArrayKind>(
+    r: &IndexedCoproduct<K, FiniteFunction<K>>,
+) -> IndexedCoproduct<K, FiniteFunction<K>>
+where
+    K::Type<K::I>: NaturalArray<K>,
+{
+    graph::converse(r)
+}
+
+pub fn operation_adjacency<K: ArrayKind, O, A>(
+    h: &Hypergraph<K, O, A>,
+) -> IndexedCoproduct<K, FiniteFunction<K>>
+where
+    K::Type<K::I>: NaturalArray<K>,
+{
+    graph::operation_adjacency(h)
+}
+
+pub fn node_adjacency<K: ArrayKind, O, A>(
+    h: &Hypergraph<K, O, A>,
+) -> IndexedCoproduct<K, FiniteFunction<K>>
+where
+    K::Type<K::I>: NaturalArray<K>,
+{
+    graph::node_adjacency(h)
+}
+
+pub fn indegree<K: ArrayKind>(
+    adjacency: &IndexedCoproduct<K, FiniteFunction<K>>,
+) -> FiniteFunction<K>
+where
+    K::Type<K::I>: NaturalArray<K>,
+{
+    graph::indegree(adjacency)
+}
+
+pub fn dense_relative_indegree<K: ArrayKind>(
+    adjacency: &IndexedCoproduct<K, FiniteFunction<K>>,
+    f: &FiniteFunction<K>,
+) -> FiniteFunction<K>
+where
+    K::Type<K::I>: NaturalArray<K>,
+{
+    graph::dense_relative_indegree(adjacency, f)
+}
+
+pub fn sparse_relative_indegree<K: ArrayKind>(
+    a: &IndexedCoproduct<K, FiniteFunction<K>>,
+    f: &FiniteFunction<K>,
+) -> (FiniteFunction<K>, FiniteFunction<K>)
+where
+    K::Type<K::I>: NaturalArray<K>,
+{
+    graph::sparse_relative_indegree(a, f)
+}
+
+pub fn kahn<K: ArrayKind>(
+    adjacency: &IndexedCoproduct<K, FiniteFunction<K>>,
+) -> (K::Index, K::Type<K::I>)
+where
+    K::Type<K::I>: NaturalArray<K>,
+{
+    graph::kahn(adjacency)
+}
